@@ -227,7 +227,10 @@ def single_delegation(cx, p):
     ext_calls = [mir.norm(name) for bb, t, name, info in mir.calls(b) if name not in u.bodies]
     if len(local_calls) != 1:
         return None, "expected exactly one local call, found %d" % len(local_calls)
-    if any(e not in ("std::result::Result::map",) for e in ext_calls):
+    # `f(..).map(|_| ())` and `f(..)?; Ok(())` both hand the callee's error through unchanged and discard nothing but the success value
+    allowed = ("std::result::Result::map", "<std::result::Result<T, E> as std::ops::Try>::branch",
+               "<std::result::Result<T, F> as std::ops::FromResidual<std::result::Result<std::convert::Infallible, E>>>::from_residual")
+    if any(e not in allowed for e in ext_calls):
         return None, "extra external calls %s" % ext_calls
     bb, t, name = local_calls[0]
     # arguments: parameter i (or a reborrow of it) in position i
